@@ -207,7 +207,7 @@ def run(chk):
         chk.nontriv(c)
         chk.count("decode:" + t.split(":")[0])
         chk.count("decode-outcome:" + a.split(" ext")[0][:12].split()[0] + (":" + a.split()[1] if a.startswith("ERR") and len(a.split()) > 1 else ""))
-        if a.startswith("PANIC") or a.startswith("CRASH") or a.startswith("TIMEOUT"):
+        if a.startswith(("PANIC", "CRASH", "TIMEOUT", "HANG")):
             chk.monitor_fail("decoder panicked / crashed on input bytes", dict(case=c[:400], impl=a))
         elif t == "prefix" and not a.startswith("ERR"):
             chk.monitor_fail("a strict prefix of a valid message was accepted", dict(case=c[:400], impl=a[:200]))
